@@ -107,7 +107,8 @@ IntegOK(e) ==
 
 IntegInScope(e) ==
     /\ Finite(e.c) /\ IsFinite(e.kx) /\ IsFinite(e.ky) /\ IsFinite(e.pa) /\ IsFinite(e.pb)
-    /\ Finite(e.indef) /\ Finite(e.integ)
+    \* (inputs only: a non-finite RESULT for in-scope inputs is a wrong answer -- IntegOK asks for finite numbers
+    \*  before it computes with them)
     /\ LET c == Vals(e.c) IN
        /\ \A i \in 1..Len(c) : Rep(BRDiv(c[i], BR(i)))
        /\ TermsInScope(B!Indef(c), Val(e.kx), 9)
@@ -132,13 +133,15 @@ PwOK(e) ==
     /\ \A i \in 1..Len(e.pieces) :
           /\ e.rpieces[i] = e.alone[i]                              \* exactly as applied to the piece alone
           /\ IF e.op = "deriv"
-             THEN DerivOK([a |-> e.pieces[i], r |-> e.rpieces[i]])
+             THEN (\A k \in 2..Len(e.pieces[i]) : BRLt(BRAbs(BRMul(BR(k - 1), Val(e.pieces[i][k]))), BRPow2(1024)))
+                      => DerivOK([a |-> e.pieces[i], r |-> e.rpieces[i]])
              ELSE OpInScope(PieceEvent(e, i)) => OpOK(PieceEvent(e, i))
 
 TracePw ==
     /\ IsEvent("pwop")
     /\ LET e == Rec[l] IN
-       IF ~((\A i \in 1..Len(e.pieces) : Finite(e.pieces[i])) /\ (\A i \in 1..Len(e.rpieces) : Finite(e.rpieces[i]))) THEN TRUE
+       \* scope: finite inputs (a non-finite result is judged by the per-piece clauses, whose own scope is on the inputs)
+       IF ~(\A i \in 1..Len(e.pieces) : Finite(e.pieces[i])) THEN TRUE
        ELSE Tally(14, TRUE) /\ Judge(PwOK(e), "piecewise operation")
 
 TraceNext == TraceOp \/ TraceDeriv \/ TraceInteg \/ TracePw
